@@ -357,12 +357,17 @@ def scenario(w):
                 return
         elif kind == 'decoy':
             # another configuration object is created and edited; this one must not notice
-            other = S.get_config(VARIANTS[ch.pick('decoy.variant', len(VARIANTS))])
-            other['imf_opts/sd_thresh'] = 0.4321
-            other['extrema_opts/mag_pad_opts/stat_length'] = 7
-            other['envelope_opts'] = {'interp_method': 'mono_pchip'}
-            del other['extrema_opts/pad_width']
             hist.append('decoy')
+            try:
+                other = S.get_config(VARIANTS[ch.pick('decoy.variant', len(VARIANTS))])
+                other['imf_opts/sd_thresh'] = 0.4321
+                other['extrema_opts/mag_pad_opts/stat_length'] = 7
+                other['envelope_opts'] = {'interp_method': 'mono_pchip'}
+                del other['extrema_opts/pad_width']
+            except Exception as e:
+                C.reraise_if_harness(e)
+                w.violation('keypath', 'decoy', 'editing a freshly created default configuration raised %r (history: %s)' % (e, hist))
+                return
             if not check_store('decoy') or not read_all():
                 return
         elif kind == 'set':
